@@ -11,12 +11,12 @@ open Cedar Cedar.SC
     live (not expired at lookup time) entry that carries an AES key; the connection is switched to
     that key, and the reported identity and authentication status are exactly the entry's (what the
     establishing handshake stored). -/
-theorem resume_needs_key (c : Cache) (now : Nat) (sid : Str) (want : Bool) (nonce : Nat)
+theorem resume_needs_key (c : Cache) (now : Nat) (sid : Str) (want : Bool) (nonce : Nat) (ra : Bool)
     (c' : Cache) (reply : ResumeReply) (o : ResumeOutcome)
-    (h : serverResume c now sid want nonce = (c', reply, some o)) :
+    (h : serverResume c now sid want nonce ra = (c', reply, some o)) :
     ∃ e, c.get sid = some e ∧ e.expired now = false ∧ e.key.isSome = true ∧ o.key = e.key ∧ o.encrypted = true ∧
          o.user = e.user ∧ o.authenticated = e.authenticated ∧
-         (want = true → reply = .authorized nonce) := by
+         (want = true → reply = .authorized nonce) ∧ (ra = true → o.authenticated = true) := by
   unfold serverResume Cache.lookupNonExpired at h
   cases hg : c.get sid with
   | none => simp [hg] at h
@@ -26,21 +26,22 @@ theorem resume_needs_key (c : Cache) (now : Nat) (sid : Str) (want : Bool) (nonc
     · simp [hx] at h
     · have hx' : e.expired now = false := by simpa using hx
       simp only [hx', Bool.false_eq_true, if_false] at h
-      by_cases hk : (e.key.isSome && (e.crypto == "AES" || e.crypto == "AESGCM")) = true
+      by_cases hk : (e.key.isSome && (e.crypto == "AES" || e.crypto == "AESGCM") && (!ra || e.authenticated)) = true
       · simp only [hk, if_true, Prod.mk.injEq, Option.some.injEq] at h
         obtain ⟨_, hr, ho⟩ := h
         subst ho
-        refine ⟨e, rfl, hx', ?_, rfl, rfl, rfl, rfl, ?_⟩
-        · simp only [Bool.and_eq_true] at hk; exact hk.1
+        refine ⟨e, rfl, hx', ?_, rfl, rfl, rfl, rfl, ?_, ?_⟩
+        · simp only [Bool.and_eq_true] at hk; exact hk.1.1
         · intro hw; simp [hw] at hr; exact hr.symm
+        · intro hr'; simp only [Bool.and_eq_true, hr', Bool.not_true, Bool.false_or] at hk; exact hk.2
       · simp [hk] at h
 
 /-- **dead_stays_dead** (lookup level): an identifier that is not in the cache, or whose entry is
     expired at lookup time, or whose entry carries no key, is not resumed — and a requester that
     asked for a reply is told `SID_NOT_FOUND`. -/
-theorem dead_not_resumed (c : Cache) (now : Nat) (sid : Str) (want : Bool) (nonce : Nat)
+theorem dead_not_resumed (c : Cache) (now : Nat) (sid : Str) (want : Bool) (nonce : Nat) (ra : Bool)
     (h : c.get sid = none ∨ (∃ e, c.get sid = some e ∧ (e.expired now = true ∨ e.key = none))) :
-    (serverResume c now sid want nonce).2 = (if want then .sidNotFound else .none, none) := by
+    (serverResume c now sid want nonce ra).2 = (if want then .sidNotFound else .none, none) := by
   unfold serverResume Cache.lookupNonExpired
   rcases h with h | ⟨e, he, hd⟩
   · simp [h]
@@ -73,12 +74,24 @@ theorem expired_lookup_removes (c : Cache) (now : Nat) (sid : Str) (e : Entry)
   simp only [hg, hx, if_true, true_and]
   exact lookup_filter_self _ _
 
+/-- **required_auth_not_resumed**: a server whose policy for the named command REQUIRES
+    authentication does not resume a session that was established without it — the requester is
+    told the session is unknown (and comes back with a full handshake, in which authentication runs). -/
+theorem required_auth_not_resumed (c : Cache) (now : Nat) (sid : Str) (want : Bool) (nonce : Nat) (e : Entry)
+    (hg : c.get sid = some e) (hu : e.authenticated = false) :
+    (serverResume c now sid want nonce true).2 = (if want then .sidNotFound else .none, none) := by
+  unfold serverResume Cache.lookupNonExpired
+  simp only [hg]
+  by_cases hx : e.expired now = true
+  · simp [hx]
+  · simp [hx, hu]
+
 /-- **fallback_dead_not_resumed**: a server with its own cache and the global fallback refuses an
     identifier that is dead in both. -/
-theorem fallback_dead_not_resumed (own glob : Cache) (now : Nat) (sid : Str) (want : Bool) (nonce : Nat)
+theorem fallback_dead_not_resumed (own glob : Cache) (now : Nat) (sid : Str) (want : Bool) (nonce : Nat) (ra : Bool)
     (ho : own.get sid = none ∨ (∃ e, own.get sid = some e ∧ e.expired now = true))
     (hg : glob.get sid = none ∨ (∃ e, glob.get sid = some e ∧ (e.expired now = true ∨ e.key = none))) :
-    (serverResume2 own glob now sid want nonce).2.2 = (if want then .sidNotFound else .none, none) := by
+    (serverResume2 own glob now sid want nonce ra).2.2 = (if want then .sidNotFound else .none, none) := by
   have hl : (own.lookupNonExpired now sid).2 = none := by
     unfold Cache.lookupNonExpired
     rcases ho with h | ⟨e, he, hx⟩
@@ -86,23 +99,23 @@ theorem fallback_dead_not_resumed (own glob : Cache) (now : Nat) (sid : Str) (wa
     · simp [he, hx]
   unfold serverResume2
   simp only [hl]
-  exact dead_not_resumed glob now sid want nonce hg
+  exact dead_not_resumed glob now sid want nonce ra hg
 
 /-- **fallback_never_revives**: resuming through the global fallback does not copy the session
     into the server's own cache, so invalidating it where it lives (the global cache) is final:
     whatever happened before, the next request for that identifier is refused. -/
-theorem fallback_never_revives (own glob : Cache) (now now' : Nat) (sid : Str) (w w' : Bool) (n n' : Nat)
+theorem fallback_never_revives (own glob : Cache) (now now' : Nat) (sid : Str) (w w' : Bool) (n n' : Nat) (ra ra' : Bool)
     (ho : own.get sid = none) :
-    let r := serverResume2 own glob now sid w n
+    let r := serverResume2 own glob now sid w n ra
     r.1.get sid = none ∧
-    (serverResume2 r.1 (r.2.1.invalidate sid) now' sid w' n').2.2 = (if w' then .sidNotFound else .none, none) := by
+    (serverResume2 r.1 (r.2.1.invalidate sid) now' sid w' n' ra').2.2 = (if w' then .sidNotFound else .none, none) := by
   have hl : own.lookupNonExpired now sid = (own, none) := by
     unfold Cache.lookupNonExpired; simp [ho]
-  have h1 : (serverResume2 own glob now sid w n).1 = own := by
+  have h1 : (serverResume2 own glob now sid w n ra).1 = own := by
     unfold serverResume2; simp [hl]
   refine ⟨by rw [h1]; exact ho, ?_⟩
   rw [h1]
-  exact fallback_dead_not_resumed own _ now' sid w' n' (Or.inl ho) (Or.inl (get_invalidate_self _ sid))
+  exact fallback_dead_not_resumed own _ now' sid w' n' ra' (Or.inl ho) (Or.inl (get_invalidate_self _ sid))
 
 private def liveEntry : Entry :=
   { id := ['s'], addr := [], key := some 1, crypto := "AES", user := "u", authenticated := true,
